@@ -133,6 +133,27 @@ func runC04(c *Ctx) {
 		c.prevCheckpointStrict()
 	})
 
+	c.rule("C04.O3", "the peer can locate the fork point: every getheaders request that starts a sync or answers a block announcement (all PushGetHeadersMsg sites of the block manager except the in-batch continuation in handleHeadersMsg, whose single hash the peer itself just supplied) carries a locator that includes the stored chain's LatestBlockLocator, so a peer whose best chain no longer contains our tip still finds the common ancestor", func() {
+		push := c.method(pPeer, "Peer", "PushGetHeadersMsg")
+		loc := c.method("headerfs", "BlockHeaderStore", "LatestBlockLocator")
+		n := 0
+		var bad, sites []string
+		for _, f := range c.P.Funcs {
+			if outermost(f) == c.fn(fnHandleHeaders) {
+				continue
+			}
+			for _, x := range find(f, callTo(push)) {
+				n++
+				sites = append(sites, c.nm(f)+"@"+c.at(x))
+				if !ir.DerivesFrom(argsOf(x)[0], valIsCallTo(loc)) {
+					bad = append(bad, c.nm(f)+" at "+c.at(x))
+				}
+			}
+		}
+		sort.Strings(bad)
+		c.verdict(len(bad) == 0 && n >= 3, "blockManager | getheaders locators include the stored chain's locator", "-", fmt.Sprintf("%d request site(s), all derive their locator from BlockHeaders.LatestBlockLocator()", n), fmt.Sprintf("getheaders sent with a locator that does not include the stored chain's locator at %s (%d site(s) found, 3 tabled): after the peer reorganises away from our tip it answers from genesis and the client never learns the new branch", join(bad), n), sites...)
+	})
+
 	c.rule("C04.O1", "progress steps (each a necessary condition of convergence): losing the sync peer re-selects one; a new sync candidate triggers startSync; a selected sync peer is asked for headers; a committed headers batch updates the header tip, wakes the filter-header sync and asks for more while not current; committed filter headers wake their waiters; an accepted peer is announced to the block manager and its departure too; the subscription manager is started before the broadcaster subscribes", func() {
 		// handleDonePeerMsg
 		fn := c.fn("(*neutrino.blockManager).handleDonePeerMsg")
